@@ -1,7 +1,7 @@
-(* PropC10.v — C10: open never hangs on any directory content (termination for ALL directories: any names, kinds, lengths, bytes); panics are outside the model (checked on the crate under catch_unwind).
+(* PropC10.v — C10: open never hangs or panics on any directory content: termination for ALL directories (any names, kinds, lengths, bytes); panic freedom by enumeration of the panic sites of the Rust code (slices, indexing, unwrap, assert, split_at ...), each with a guard on the model values proved to hold: read half for ANY directory, write half (recovery-time GC) when no WAL file is longer than a full file (false otherwise: finding F9), arithmetic-overflow sites (debug builds) when positions and file numbers stay below 2^64-1 (false otherwise: finding F6); the read accessors from the representation invariant.
    Statements only; each theorem is closed by `exact <lemma>`; proofs live in the imported files. *)
 From Coq Require Import Lia NArith List.
-From MRL Require Import Bytes Params Names Frame Record Mem Rolling Log OpenTerm SpecRefine.
+From MRL Require Import Bytes Params Names Frame Record Mem Rolling Log OpenTerm SpecRefine PanicFree.
 
 (* the replay loop always terminates: the model's fuel is never exhausted *)
 Theorem C10_open_terminates :
@@ -37,4 +37,67 @@ Theorem C10_result_wellformed :
     open P fs plan pol hint = OpenOk st -> qs_inv (s_qs st).
 Proof. exact open_inv. Qed.
 Print Assumptions C10_result_wellformed.
+
+(* ANY directory, any fault plan: none of the panic sites of the directory scan, rolling reader, frame reader, record reader, entry/batch deserialisation, replay into the in-memory queues and reader-to-writer hand-over is reachable (release profile) *)
+Theorem C10_open_read_panic_free :
+    forall (P : params) (fs : fsT) (plan : option fplan),
+    7 <= BS P -> open_read_guards P false (open_fuel P fs) fs plan.
+Proof. exact open_read_panic_free. Qed.
+Print Assumptions C10_open_read_panic_free.
+
+(* the whole of open incl. the recovery-time GC and its writes, for directories in which no WAL-named file is longer than a full file *)
+Theorem C10_open_panic_free :
+    forall (P : params) (fs : fsT) (plan : option fplan) (pol : policy) (hint : list bytes),
+    7 <= BS P -> 0 < NB P -> fs_bounded P fs -> open_guards P false fs plan pol hint.
+Proof. exact open_panic_free. Qed.
+Print Assumptions C10_open_panic_free.
+
+(* that premise is needed: with an over-long last file the assert in RollingWriter::write is reached (finding F9, reproduced on the crate) *)
+Theorem C10_open_panic_free_needs_bounded_files :
+    ~
+    (forall (P : params) (fs : fsT) (plan : option fplan) (pol : policy) (hint : list bytes),
+    7 < BS P -> open_guards P false fs plan pol hint).
+Proof. exact open_panic_free_needs_bounded_files. Qed.
+Print Assumptions C10_open_panic_free_needs_bounded_files.
+
+(* the read accessors (range for all bounds, last_record, last_position, summary) on whatever open returns, for any directory: no panic site reachable (release profile) *)
+Theorem C10_accessors_after_open :
+    forall (P : params) (fs : fsT) (plan : option fplan) (pol : policy) (hint : list bytes) (st : state),
+    open P fs plan pol hint = OpenOk st ->
+    forall (q : bytes) (lo hi : bound),
+    log_range_guards st q lo hi /\
+    log_last_record_guards st q /\ log_last_position_guards false st q /\ log_summary_guards false st.
+Proof. exact accessors_after_open. Qed.
+Print Assumptions C10_accessors_after_open.
+
+(* the same from the representation invariant alone *)
+Theorem C10_accessors_panic_free :
+    forall st : state,
+    qs_inv (s_qs st) ->
+    forall (q : bytes) (lo hi : bound),
+    log_range_guards st q lo hi /\
+    log_last_record_guards st q /\ log_last_position_guards false st q /\ log_summary_guards false st.
+Proof. exact accessors_panic_free. Qed.
+Print Assumptions C10_accessors_panic_free.
+
+(* debug profile (overflow checks): also no arithmetic overflow, provided every decoded position is below 2^64-1 and file numbers leave room for the GC's roll-overs *)
+Theorem C10_open_debug_panic_free :
+    forall (P : params) (fs : fsT) (plan : option fplan) (pol : policy) (hint : list bytes),
+    7 <= BS P ->
+    0 < NB P ->
+    FILE_BYTES P + BS P + 65536 <= U64 ->
+    fs_bounded P fs ->
+    open_small P (open_fuel P fs) fs plan pol hint -> open_guards P true fs plan pol hint.
+Proof. exact open_debug_panic_free. Qed.
+Print Assumptions C10_open_debug_panic_free.
+
+(* and that premise is needed: a CRC-valid record at position 2^64-1 makes next_position overflow (finding F6) *)
+Theorem C10_f6_shape :
+    exists (st : state) (q : mq),
+    open P6 fs6 None (PAlways false) [] = OpenOk st /\
+    qs_get (s_qs st) q6 = Some q /\
+    next_position q = U64 /\
+    next_position_u64 q = 0 /\ ~ log_last_position_guards true st q6 /\ ~ log_summary_guards true st.
+Proof. exact f6_shape. Qed.
+Print Assumptions C10_f6_shape.
 
